@@ -424,28 +424,54 @@ def _wild_arm_dead(prog, fn, node):
 
 
 def _accepted_variant_types(prog, fn, node):
-    """for a wildcard arm over `Variant` preceded by `<table>(value.ty())…?`: the VariantTypes for which the table
-    function returns Some — the only values that reach the match"""
+    """for a wildcard arm over `Variant` preceded by a table lookup on the value's type whose miss leaves the function
+    (`table(v.ty()).ok_or(..)?`, `match table(ty) { Some(x) => x, None => return Err(..) }`, `let Some(x) = .. else
+    { return .. }`): the VariantTypes for which the table function returns Some — the only values that reach the match"""
+    ty_lids = set()
+    for st in core.walk_lets(fn.body):
+        init = core.strip(st.get("init") or {})
+        if st["pat"].get("k") == "Binding" and init.get("k") == "MethodCall" and init["m"] == "ty" and not init["args"]:
+            ty_lids.add(st["pat"]["lid"])
+
+    def is_ty(a):
+        a = core.strip(a)
+        return (a.get("k") == "MethodCall" and a["m"] == "ty" and not a["args"]) or (a.get("k") == "Path" and a.get("lid") in ty_lids)
+
+    def diverges(e):
+        e = core.strip(e)
+        while e.get("k") == "Block" and not e["b"]["stmts"] and "expr" in e["b"]:
+            e = core.strip(e["b"]["expr"])
+        return e.get("k") in ("Ret", "Continue", "Break") or e.get("ty") == "!"
     for st in core.walk_lets(fn.body):
         init = st.get("init")
-        if init is None or core.as_try(core.strip(init)) is None:
+        if init is None:
             continue
-        for x in core.walk(init, into_closures=False):
-            if x.get("k") == "Call" and x["args"] and core.strip(x["args"][0]).get("k") == "MethodCall" and core.strip(x["args"][0])["m"] == "ty":
-                tf = prog.fns.get(core.callee(x) or "")
-                if tf is None or tf.body is None:
-                    continue
-                acc = set()
-                for m in core.walk_fn(tf):
-                    if m.get("k") == "Match" and m.get("src") == "Normal":
-                        for a in m["arms"]:
-                            b = core.strip(a["body"])
-                            if b.get("k") == "Call" and (core.callee(b) or "").endswith("Option::Some"):
-                                for alt in tables.pat_alts(a["pat"]):
-                                    if alt[0] in ("v", "ctor", "struct") and alt[1]:
-                                        acc.add(vname(alt[1]))
-                if acc:
-                    return core.callee(x), acc
+        calls = [x for x in core.walk(init, into_closures=False) if x.get("k") == "Call" and x["args"] and is_ty(x["args"][0])]
+        if not calls:
+            continue
+        x = calls[0]
+        guarded = any(core.as_try(y) is not None for y in core.walk(init, into_closures=False))
+        top = core.strip(init)
+        if not guarded and top.get("k") == "Match" and any(z is x for z in core.walk(top["e"])):
+            guarded = any((core.pat_str(a["pat"]).endswith("None") or a["pat"].get("k") == "Wild") and diverges(a["body"]) for a in top["arms"])
+        if not guarded and (st.get("els") is not None or st.get("else") is not None):
+            guarded = True
+        if not guarded:
+            continue
+        tf = prog.fns.get(core.callee(x) or "")
+        if tf is None or tf.body is None:
+            continue
+        acc = set()
+        for m in core.walk_fn(tf):
+            if m.get("k") == "Match" and m.get("src") == "Normal":
+                for a in m["arms"]:
+                    b = core.strip(a["body"])
+                    if b.get("k") == "Call" and (core.callee(b) or "").endswith("Option::Some"):
+                        for alt in tables.pat_alts(a["pat"]):
+                            if alt[0] in ("v", "ctor", "struct") and alt[1]:
+                                acc.add(vname(alt[1]))
+        if acc:
+            return core.callee(x), acc
     return None
 
 
